@@ -10,7 +10,7 @@
 //	                                          | err trunc=<0|1> | panic <kind>
 //	ltun redec <kind> <hex>                decode into the SAME object as the previous dec/redec of this case
 //	ltun pkt   <kind> <hex>                run the registered decoder (LayerType.Decode) on a tracing PacketBuilder
-//	                                       -> ok <fields> c= p= trunc= sets=<Set*Layer calls|-> next=lt:<n>|link:<n>|none
+//	                                       -> ok <fields> c= p= trunc= sets=<Set*Layer calls|-> can=<CanDecode types> next=lt:<n>|link:<n>|none
 //	ltun ser   <kind> <fix> <csum> <hist> <layer…> <payload>   -> ok <bytes-hex> <fields after the call> | err <fields after>
 //	ltun ser2  …                           serialize, then serialize the mutated object again (fresh buffer) -> as ser
 //	ltun rt    …                           serialize, then decode the bytes into a fresh layer -> as dec
@@ -556,7 +556,11 @@ func opPkt(k *kind, d []byte) string {
 		lib.Stat("pkt:done")
 	}
 	lib.Nontrivial()
-	return fmt.Sprintf("ok %s trunc=%s sets=%s %s", render(l, true), b01(t.trunc), joinOr(t.sets), tail)
+	var can []string
+	for _, lt := range l.CanDecode().LayerTypes() {
+		can = append(can, strconv.Itoa(int(lt)))
+	}
+	return fmt.Sprintf("ok %s trunc=%s sets=%s can=%s %s", render(l, true), b01(t.trunc), joinOr(t.sets), joinOr(can), tail)
 }
 
 // ---------------------------------------------------------------- serialize ops + monitors
